@@ -140,10 +140,17 @@ def _pynum(x):
     return complex(re, im)
 
 
+_IDX_LOG = []
+
+
 def _pyindex(ix):
     from cvxopt import matrix
     if ix["t"] == "int":
         return ix["v"]
+    if ix["t"] == "list" and ix.get("asmatrix") and ix["vs"]:
+        M = matrix(ix["vs"], (len(ix["vs"]), 1), 'i')
+        _IDX_LOG.append((M, list(ix["vs"])))      # the caller's index matrix must not be modified by the operation
+        return M
     if ix["t"] == "slice":
         f = lambda v: None if v == NONEI else v
         return slice(f(ix["a"]), f(ix["b"]), f(ix["c"]))
@@ -189,6 +196,7 @@ def run_program(prog):
     for op in prog:
         k = op["k"]
         out = {"k": "none"}
+        del _IDX_LOG[:]
         try:
             for key in ("src",):
                 if key in op and op[key] not in env:
@@ -292,7 +300,9 @@ def run_program(prog):
             out = {"k": "err", "cls": type(e).__name__}
         heap = {n: _snap(M) for n, M in env.items()}
         same = [[a, b] for a in env for b in env if env[a] is env[b]]
-        trace.append({"op": _clean(op), "out": out, "heap": heap, "same": same})
+        idxok = all(list(M) == orig and M.size == (len(orig), 1) for M, orig in _IDX_LOG)
+        del _IDX_LOG[:]
+        trace.append({"op": _clean(op), "out": out, "heap": heap, "same": same, "idxok": idxok})
     return trace
 
 
